@@ -11,12 +11,13 @@ ASSUMPTIONS = [
     "fresh process; (X) after a native prelude on other live objects (same charge counts at other lengths, other spellings, unrelated sequences), every query again on a fresh object; "
     "(F)/(B) all queries one after another on ONE object, in forward and in reverse order -- every ordered pair (earlier query, later query) occurs in one of the two chains. "
     "The claim is value(X/F/B) == value(R) for every query, and stored sequence / phosphosite list unchanged after each chain",
+    "a native pass at each item's witness additionally checks that a value returned by a query is not changed by later queries (aliasing of returned containers)",
     "queries with heavy path structure are excluded from the symbolic chains and covered elsewhere: get_isoelectric_point and pH-dependent getters (C09), plotting (C19)",
     "a symbolic difference is replayed natively in a clean subprocess through the real call history before it is reported",
 ]
 OUTSIDE = ["sequences longer than the bound", "histories longer than the two fixed chains (each ordered pair of queries is covered, arbitrary repetition patterns are not)",
            "objects with phosphosites set (thorough tier includes one site)"]
-NS = {"quick": [2, 6], "thorough": [1, 2, 3, 5, 6, 7]}
+NS = {"quick": [2, 6], "thorough": [1, 2, 3, 5, 6]}
 ITEM_TIMEOUT = {"quick": 1500, "thorough": 3400}
 
 QUERIES = [
@@ -152,9 +153,54 @@ def run_item(item):
                     res["inconclusive"].append("TRANSLATOR-VALIDATION FAILED %s on %s: %r vs %r" % (qname(q), q0, str(got)[:80], str(nat)[:80]))
             except Exception as ex:
                 res["inconclusive"].append("TRANSLATOR-VALIDATION error %s on %s: %s" % (qname(q), q0, ex))
+        # returned values must not be aliased to state that later queries overwrite (native pass at the witness)
+        res["obligations"] += 1
+        bad = alias_problems(dict(seq=q0, site=list(sites)))
+        if bad:
+            res["sat"] += 1
+            res["candidates"].append(dict(seq=q0, mode="alias", query=bad[0][0], site=list(sites), prelude=prelude, label=bad[0][1]))
+        else:
+            res["trivial"] += 1
     explore(I, res, thunk, on_return, cex_for("path", -1), label=item["name"])
     reset_shared_defaults()
     return finish(I, res)
+
+
+def alias_problems(cex):
+    """a value returned by a query must still be the same after other queries ran on this and on other objects"""
+    from localcider.sequenceParameters import SequenceParameters
+    import copy
+    seq = cex["seq"]
+    N = len(seq)
+    usable = [q for q in QUERIES if not (q[0].startswith("get_linear") and q[1] and isinstance(q[1][0], int) and q[1][0] > N) and not (q[2].get("blobLen", 0) > N)]
+
+    def fresh(sq=seq):
+        sp = SequenceParameters(sq)
+        if cex.get("site") and sq == seq:
+            sp.set_phosphosites(list(cex["site"]))
+        return sp
+    # another live object with a different composition (and a different length)
+    other = "".join(a for a in "WKDSP" if a not in seq)[:2] * 3 or "WKWKWK"
+    out = []
+    reset_shared_defaults()
+    for qi, q in enumerate(usable):
+        o = fresh()
+        r = getattr(o, q[0])(*copy.deepcopy(q[1]), **q[2])
+        snap = copy.deepcopy(_plain(r))
+        changed = False
+        for sp in (fresh(other), o, fresh()):
+            for q2 in usable:
+                try:
+                    getattr(sp, q2[0])(*copy.deepcopy(q2[1]), **q2[2])
+                except Exception:
+                    pass
+            if not deep_close(_plain(r), snap, TOL):
+                changed = True
+                break
+        if changed:
+            out.append((QUERIES.index(q), "the value returned by %s on %s changed after later queries: %s -> %s" % (qname(q), seq, str(snap)[:80], str(_plain(r))[:80])))
+    reset_shared_defaults()
+    return out
 
 
 def _plain(x):
@@ -187,7 +233,10 @@ def native_history(cex):
         return sp
 
     def run(sp, q):
-        return _plain(getattr(sp, q[0])(*copy.deepcopy(q[1]), **q[2]))
+        try:
+            return _plain(getattr(sp, q[0])(*copy.deepcopy(q[1]), **q[2]))
+        except Exception as ex:
+            return "RAISED %s: %s" % (type(ex).__name__, str(ex)[:60])
     ref = [run(fresh(), q) for q in usable]
     problems = []
     run_prelude(cex.get("prelude"))
@@ -207,6 +256,9 @@ def native_history(cex):
 
 
 def replay(cex):
+    if cex.get("mode") == "alias":
+        probs = alias_problems(cex)
+        return bool(probs), probs[0][1] if probs else "returned values are not aliased to mutable state"
     env = dict(os.environ)
     root = os.path.dirname(os.path.dirname(os.path.abspath(__file__)))
     env["PYTHONPATH"] = root + ":/repo"
